@@ -384,11 +384,64 @@ def run(ctx) -> None:
         shapes.check_passthrough(ctx, "R6", root, "cli._validate_release_tag", {vt.params[0]: "tag"})
 
 
-def none_filter_rule(ctx, eng: str, rule: str) -> None:
-    """<eng>._is_cal_gt: a field takes part in the comparison iff it is not None on both sides (0 is a value)."""
+def _fold_cal_gt(ctx, eng: str) -> T.Optional[T.List[str]]:
+    """Decide <eng>._is_cal_gt by folding its body: every single field with both values in {None, 0, 1, 2}, every pair of
+    fields with values in {None, 0, 1}, all other fields None.  Expected: the values of the fields that are not None on both
+    sides, in declared order, compared with `>` (lexicographic, strict).  Returns the deviating cases, or None if the body
+    cannot be folded."""
+    import itertools
+    import types
+    from sa.model import CannotFold
+    prog = ctx.prog
+    gt = prog.function(f"{eng}._is_cal_gt")
+    klass = "V2CalendarInfo" if eng == "v2version" else "V1CalendarInfo"
+    fields = list(prog.klass(f"version.{klass}").fields)
+    body = [st for st in gt.node.body if not (isinstance(st, ast.Expr) and isinstance(st.value, ast.Constant))]
+    if not body or not isinstance(body[-1], ast.Return) or body[-1].value is None or len(gt.params) < 2:
+        return None
+    vmod = types.SimpleNamespace(**{klass: types.SimpleNamespace(_fields=tuple(fields))})
+
+    def run(lv: T.Dict[str, T.Any], rv: T.Dict[str, T.Any]) -> bool:
+        env: T.Dict[str, T.Any] = {gt.params[0]: types.SimpleNamespace(**lv), gt.params[1]: types.SimpleNamespace(**rv), "version": vmod}
+        prog._propagate(gt.module, body[:-1], env, gt.fq)
+        return bool(prog.fold(gt.module, body[-1].value, env))
+
+    def spec(lv: T.Dict[str, T.Any], rv: T.Dict[str, T.Any]) -> bool:
+        both = [f for f in fields if lv[f] is not None and rv[f] is not None]
+        return [lv[f] for f in both] > [rv[f] for f in both]
+    wrong: T.List[str] = []
+    none = {f: None for f in fields}
+    try:
+        for f in fields:
+            for a, b in itertools.product((None, 0, 1, 2), repeat=2):
+                lv, rv = dict(none, **{f: a}), dict(none, **{f: b})
+                if run(lv, rv) != spec(lv, rv):
+                    wrong.append(f"{f}: left {a!r}, right {b!r} -> {run(lv, rv)}")
+        for f, g in itertools.combinations(fields, 2):
+            for a, b, c, d in itertools.product((None, 0, 1), repeat=4):
+                lv, rv = dict(none, **{f: a, g: c}), dict(none, **{f: b, g: d})
+                if run(lv, rv) != spec(lv, rv):
+                    wrong.append(f"({f}, {g}): left ({a!r}, {c!r}), right ({b!r}, {d!r}) -> {not spec(lv, rv)}")
+                    break
+    except (CannotFold, TypeError, AttributeError, KeyError, ValueError, IndexError):
+        return None
+    return wrong
+
+
+def none_filter_rule(ctx, eng: str, rule: str) -> bool:
+    """<eng>._is_cal_gt: a field takes part in the comparison iff it is not None on both sides (0 is a value); the result
+    is the strict lexicographic `>` over the declared field order.  Returns True when decided by folding (any spelling)."""
     prog, cfgs = ctx.prog, ctx.cfgs
     gt = prog.function(f"{eng}._is_cal_gt")
     ctx.visit(gt.fq)
+    wrong = _fold_cal_gt(ctx, eng)
+    if wrong is not None:
+        zero = [w for w in wrong if " 0" in w or "(0" in w]
+        ctx.check(rule, not wrong, f"{eng}._is_cal_gt == (values of the fields set on both sides, in declared order: left > right), folded for every field and field pair over {{None, 0, 1, 2}}",
+                  f"{eng}._is_cal_gt: fields are filtered by truthiness (a calendar value of 0, e.g. week 0, is dropped from the future guard)" if zero and len(zero) == len(wrong)
+                  else f"{eng}._is_cal_gt: comparison is not `left > right` over the fields set on both sides, in declared order",
+                  "; ".join(wrong[:3]), loc=gt.loc(), witness={"old": "2021.05.3", "pattern": "YYYY.0W.INC0", "date": "2021-01-02", "cases": wrong[:4]})
+        return True
     # a field takes part in the comparison iff it is not None on both sides (0 is a value: week 0)
     gcfg = cfgs.get(gt.fq)
     gpc = PathCond(gcfg)
@@ -423,3 +476,4 @@ def none_filter_rule(ctx, eng: str, rule: str) -> None:
         ok = ok and lists.get(l) == gt.params[0] and lists.get(r) == gt.params[1]
     ctx.check(rule, ok, f"{eng}._is_cal_gt returns <collected left values> > <collected right values> (lexicographic, strict)",
               f"{eng}._is_cal_gt: comparison is not `left > right`", unparse(rets[0]) if rets else "", loc=gt.loc())
+    return False
